@@ -31,7 +31,8 @@ CONSTANTS Containers,   \* container names
           RealPorts,    \* container -> sequence of host ports the allocator yields (model checking)
           Pids,         \* container -> pid string of its `treadmill run` process
           Dns,          \* host name -> address (pinned resolution)
-          MaxFinish,    \* how often finish may run per container
+          MaxFinish,    \* how often a (successful) finish may run per container
+          MaxFail,      \* 0: finishes never fail; 1: one aborted attempt per container
           Defects
 
 VARIABLE st
@@ -116,8 +117,37 @@ Running(s) == Started(s) \ Finished(s)
 
 R(post, res) == [post |-> post, res |-> res]
 
+(* A finish attempt is a sequence of removals in the order of                 *)
+(* _cleanup_network: passthrough rules, vring member, endpoint specs,         *)
+(* endpoint rules and infra members, tcp ephemeral, udp ephemeral, and last   *)
+(* the release of the network resource.  FinishFail(c, j): the attempt is     *)
+(* aborted by an I/O style error after j of these groups (the exception       *)
+(* leaves _cleanup_network, nothing after the failing call runs); the         *)
+(* supervisor then runs the finish again from the top.                        *)
+NGroups == 6
+FinGroup(m, w, c, g) ==
+  CASE g = 1 -> [rules |-> {<<r, c>> : r \in PassRules(m, w)}, specs |-> FALSE, vring |-> {}, infra |-> {}]
+    [] g = 2 -> [rules |-> {}, specs |-> FALSE, vring |-> {w}, infra |-> {}]
+    [] g = 3 -> [rules |-> {}, specs |-> TRUE, vring |-> {}, infra |-> {}]
+    [] g = 4 -> [rules |-> {<<r, c>> : r \in EpRules(m, w)}, specs |-> FALSE, vring |-> {},
+                 infra |-> EpInfra(m, w)]
+    [] g = 5 -> [rules |-> {<<r, c>> : r \in EphRules(m.etcp, "tcp", w)}, specs |-> FALSE,
+                 vring |-> {}, infra |-> EphInfra(m.etcp, "tcp", w)]
+    [] g = 6 -> [rules |-> {<<r, c>> : r \in EphRules(m.eudp, "udp", w)}, specs |-> FALSE,
+                 vring |-> {}, infra |-> EphInfra(m.eudp, "udp", w)]
+ApplyGroup(s, m, c, grp) ==
+  [s EXCEPT !.rules = @ \ grp.rules,
+            !.specs = IF grp.specs THEN {p \in @ : ~(p[1][1] = m.app /\ p[2] = c)} ELSE @,
+            !.vring = @ \ grp.vring,
+            !.infra = @ \ grp.infra]
+RECURSIVE FinPrefix(_, _, _, _, _)
+FinPrefix(s, m, w, c, j) ==
+  IF j = 0 THEN s ELSE ApplyGroup(FinPrefix(s, m, w, c, j - 1), m, c, FinGroup(m, w, c, j))
+
 Choices(s, ev, c, rm) ==
-  IF ev = "Start" /\ ~rm.shared /\ FreeVips(s) # {} THEN FreeVips(s) ELSE {"-"}
+  IF ev = "Start" /\ ~rm.shared /\ FreeVips(s) # {} THEN FreeVips(s)
+  ELSE IF ev = "FinishFail" THEN 0..NGroups
+  ELSE {"-"}
 
 (* one call.  rm is only read for Start.                                     *)
 Step(s, ev, c, rm, v) ==
@@ -140,6 +170,18 @@ Step(s, ev, c, rm, v) ==
                            !.vring = @ \ {w},
                            !.infra = @ \ FinInfra(m, w),
                            !.net = @ \ {<<c, w>>}], "ok")
+    [] ev = "FinishFail" ->
+         (* v = number of groups done before the error; the network resource  *)
+         (* is released last, so an aborted attempt keeps it (a deviation:    *)
+         (* release it in a `finally`)                                        *)
+         LET s1 == [s EXCEPT !.failed = @ \cup {c}]
+             m == ManOf(s, c) IN
+         IF m.shared \/ ~HasNet(s, c) THEN R(s1, "raise")
+         ELSE LET w == VipOf(s, c)
+                  s2 == FinPrefix(s1, m, w, c, v) IN
+              IF "finish_frees_net_on_abort" \in Defects
+              THEN R([s2 EXCEPT !.net = @ \ {<<c, w>>}], "raise")
+              ELSE R(s2, "raise")
 
 (* ------------------------------------------------------------------------ *)
 (* observation, and the memory the clauses need: what each start added       *)
@@ -195,7 +237,8 @@ FailIf(name, holds) == IF holds THEN {} ELSE {name}
 FlagIf(name, cond) == IF cond THEN {name} ELSE {}
 
 StepFail(pre, ev, c, res, post) ==
-  IF ev # "Finish" THEN {}
+  IF ev = "FinishFail" THEN FailIf("C16.others", C16others(pre, c, post))
+  ELSE IF ev # "Finish" THEN {}
   ELSE IF c \in Finished(pre)
        THEN FailIf("C16.idempotent", C16idempotent(pre, res, post))
             \cup FailIf("C16.others", C16others(pre, c, post))
@@ -206,10 +249,12 @@ StepEx(pre, ev, c, post) ==
   FlagIf("registered", ev = "Finish" /\ c \notin Finished(pre) /\ AddedBy(pre, c) # NoDelta)
   \cup FlagIf("others", ev = "Finish" /\ \E d \in Others(pre, c) : AddedBy(pre, d) # NoDelta)
   \cup FlagIf("repeat", ev = "Finish" /\ c \in Finished(pre))
+  \cup FlagIf("retried", ev = "Finish" /\ c \notin Finished(pre) /\ c \in pre.failed
+                          /\ AddedBy(pre, c) # NoDelta)
 
 (* ------------------------------------------------------------------------ *)
 Init == st = [rules |-> {}, specs |-> {}, vring |-> {}, infra |-> {}, net |-> {},
-              man |-> {}, fin |-> {}, mem |-> {}, bad |-> {}]
+              man |-> {}, fin |-> {}, failed |-> {}, mem |-> {}, bad |-> {}]
 
 Advance(ev, c, rm) ==
   \E v \in Choices(st, ev, c, rm) :
@@ -225,8 +270,17 @@ Finish(c) == /\ c \in Started(st)
              /\ FinCount(st, c) < MaxFinish
              /\ Advance("Finish", c, NoMan)
 
+(* one failed attempt per container, only where a finish has work to do *)
+FinishFail(c, j) == /\ MaxFail > 0
+                    /\ c \in Started(st) /\ c \notin Finished(st) /\ c \notin st.failed
+                    /\ ~ManOf(st, c).shared /\ HasNet(st, c)
+                    /\ \E v \in {j} : LET r == Step(st, "FinishFail", c, NoMan, v)
+                                         p == Remember(st, "FinishFail", c, r.post) IN
+                         st' = [p EXCEPT !.bad = st.bad \cup StepFail(st, "FinishFail", c, r.res, p)]
+
 Next == \/ \E c \in Containers : \E raw \in RawSpace[c] : Start(c, raw)
         \/ \E c \in Containers : Finish(c)
+        \/ \E c \in Containers, j \in 0..NGroups : FinishFail(c, j)
 
 Spec == Init /\ [][Next]_st
 
